@@ -14,7 +14,7 @@ with open(q, 'w') as f:
         imp = n.startswith('!')
         n = n.lstrip('!')
         if imp: f.write('Set Printing Implicit.\n')
-        f.write(f'Goal True. idtac "BEGIN {n}". Abort.\nCheck {s}.\n')
+        f.write(f'Goal True. idtac "BEGIN {n}". Abort.\nCheck @{s}.\n')
         if imp: f.write('Unset Printing Implicit.\n')
     f.write('Goal True. idtac "END". Abort.\n')
 out = subprocess.run(f'coqc -Q {coq} OHG {q}', shell=True, capture_output=True, text=True).stdout
@@ -30,7 +30,7 @@ with open(f'{coq}/Props/{pid}.v', 'w') as f:
     f.write('From OHG Require Import ' + ' '.join(imports) + '.\n\n')
     pairs = [(n.lstrip('!'), s) for n, s in pairs]
     for n, s in pairs:
-        f.write(f'Theorem {n} :{types[n]}.\nProof. exact {s}. Qed.\n\n')
+        f.write(f'Theorem {n} :{types[n]}.\nProof. exact (@{s}). Qed.\n\n')
     for e in extra:
         f.write(e + '\n\n')
     for n, s in pairs:
